@@ -139,9 +139,24 @@ Section Pairing.
   Definition EErr (s : wst) : Prop :=
     w_kpc s = KErr /\ rev (w_emitted s) = pairs 0 (firstn (length (w_emitted s)) recs0).
 
+  (* the collector only changes its program counter among the "between records" points *)
+  Lemma einv_setpc s q pc :
+    EInv s -> q = w_queue s -> kcurrent s = 0 ->
+    (pc = KDeq \/ pc = KMid \/ pc = KMidW \/ pc = KMid2) ->
+    EInv (set_coll s q (w_kread s) (w_klines s) pc 0 (w_kcur s) (w_emitted s)).
+  Proof.
+    intros [Eem Eq El Ec Eeof Ekd] Hq0 Hk Hpc. subst q.
+    assert (Hk' : w_kpc s <> KLines) by (unfold kcurrent in Hk; destruct (w_kpc s); try discriminate; lia).
+    assert (Hc0 : match pc with KLines => 1 | _ => 0 end = 0) by (destruct Hpc as [->|[->|[->| ->]]]; reflexivity).
+    constructor; simpl; unfold kcurrent, radj, feof in *; simpl; auto.
+    - rewrite Hc0. rewrite Hk in Eq. exact Eq.
+    - intros Hx. destruct Hpc as [->|[->|[->| ->]]]; congruence.
+    - intros Hx. destruct Hpc as [->|[->|[->| ->]]]; destruct Hx; discriminate.
+  Qed.
+
   Lemma einv_collect s m s' : EInv s -> step_collect pr alen s m = Some s' -> EInv s' \/ EErr s'.
   Proof.
-    intros [Eem Eq El Ec Eeof Ekd] H. unfold step_collect in H.
+    intros J H. pose proof J as [Eem Eq El Ec Eeof Ekd]. unfold step_collect in H.
     destruct Eq as (ns & tailq & Hq & Htail & Hsk). unfold kcurrent, radj, feof in *.
     destruct (w_kpc s) eqn:Ek; try discriminate.
     - (* KDeq *)
@@ -184,8 +199,9 @@ Section Pairing.
         assert (Hsk' : skipn (S (length (w_emitted s)) + 0) recs0 =
                        ns ++ match w_fpc s with FSendSecond => tl (w_recs s) | _ => w_recs s end).
         { rewrite Nat.add_0_r. replace (S (length (w_emitted s))) with (length (w_emitted s) + 1) by lia. exact Hsk. }
+        destruct (p_mid_peek pr);
         constructor; simpl; unfold kcurrent, radj, feof; simpl; auto; try discriminate; try exact Eeof; try solve [intros [X|X]; discriminate].
-        exists ns, tailq. split; [exact Hq|]. split; [exact Htail|exact Hsk'].
+        all: exists ns, tailq; (split; [exact Hq|]; split; [exact Htail|exact Hsk']).
       + destruct (A alen (S (w_klines s)) <=? w_kread s).
         * left. inversion H; subst s'; clear H.
           constructor; simpl; unfold kcurrent, radj, feof; simpl; auto; try discriminate; try exact Eeof; try solve [intros [X|X]; discriminate].
@@ -200,6 +216,21 @@ Section Pairing.
              all: try solve [intros _; split; [exact Hcur|]; exists rn; split; [exact Hnth|lia]].
           -- destruct (w_cexit s && Nat.eqb (w_kread s) (w_cwritten s)); [|discriminate].
              right. inversion H; subst s'; clear H. split; [reflexivity|exact Eem].
+    - (* KMid *)
+      assert (Hk0 : kcurrent s = 0) by (unfold kcurrent; rewrite Ek; reflexivity).
+      destruct (w_queue s) as [|x q] eqn:Eqq; left; inversion H; subst s'; clear H; apply einv_setpc; auto.
+    - (* KMidW *)
+      assert (Hk0 : kcurrent s = 0) by (unfold kcurrent; rewrite Ek; reflexivity).
+      destruct (A alen (w_klines s) <? w_cwritten s).
+      + left. inversion H; subst s'; clear H. apply einv_setpc; auto.
+      + destruct (w_cexit s); [|discriminate]. destruct (p_peek_eof_ok pr); inversion H; subst s'; clear H.
+        * left. apply einv_setpc; auto.
+        * right. split; [reflexivity|exact Eem].
+    - (* KMid2 *)
+      assert (Hk0 : kcurrent s = 0) by (unfold kcurrent; rewrite Ek; reflexivity).
+      destruct (w_queue s) as [|x q] eqn:Eqq; inversion H; subst s'; clear H.
+      + right. split; [reflexivity|exact Eem].
+      + left. apply einv_setpc; auto.
     - (* KPeek *)
       pose proof (El ltac:(discriminate)) as Hl.
       destruct (w_kread s <? w_cwritten s).
@@ -230,10 +261,11 @@ Section Pairing.
         destruct (negb (w_cexit s) && Nat.eqb (w_crel s) (w_cwritten s) && (1 <=? m) && (w_cread s + m <=? w_pushed s)
                   && (w_cread s + m <=? I ilen (S (w_clines s)))); [|discriminate].
         destruct (p_echo pr); [inversion H; subst s'; apply (einv_unchanged s); simpl; auto|].
+        destruct (p_early pr); [inversion H; subst s'; apply (einv_unchanged s); simpl; auto|].
         destruct (negb _ && release_now pr _ _); inversion H; subst s'; apply (einv_unchanged s); simpl; auto.
       + left. unfold step_child_eof in H.
         destruct (negb (w_cexit s) && w_inclosed s && Nat.eqb (w_cread s) (w_pushed s) && Nat.eqb (w_crel s) (w_cwritten s)); [|discriminate].
-        destruct (Nat.eqb (w_crel s) (produced pr alen (w_cread s) (w_clines s))); inversion H; subst s'; apply (einv_unchanged s); simpl; auto.
+        destruct (Nat.eqb (w_crel s) (produced pr ilen alen (w_cread s) (w_clines s))); inversion H; subst s'; apply (einv_unchanged s); simpl; auto.
       + left. unfold step_child_write in H.
         destruct (negb (w_cexit s) && (1 <=? m) && (w_cwritten s + m <=? w_crel s) && (w_cwritten s + m - w_kread s <=? p_cout pr)); [|discriminate].
         inversion H; subst s'; apply (einv_unchanged s); simpl; auto.
@@ -261,10 +293,11 @@ Section Pairing.
           destruct (negb (w_cexit s) && Nat.eqb (w_crel s) (w_cwritten s) && (1 <=? m) && (w_cread s + m <=? w_pushed s)
                     && (w_cread s + m <=? I ilen (S (w_clines s)))); [|discriminate].
           destruct (p_echo pr); [inversion H; subst s'; simpl; auto|].
+          destruct (p_early pr); [inversion H; subst s'; simpl; auto|].
           destruct (negb _ && release_now pr _ _); inversion H; subst s'; simpl; auto.
         - unfold step_child_eof in H.
           destruct (negb (w_cexit s) && w_inclosed s && Nat.eqb (w_cread s) (w_pushed s) && Nat.eqb (w_crel s) (w_cwritten s)); [|discriminate].
-          destruct (Nat.eqb (w_crel s) (produced pr alen (w_cread s) (w_clines s))); inversion H; subst s'; simpl; auto.
+          destruct (Nat.eqb (w_crel s) (produced pr ilen alen (w_cread s) (w_clines s))); inversion H; subst s'; simpl; auto.
         - unfold step_child_write in H.
           destruct (negb (w_cexit s) && (1 <=? m) && (w_cwritten s + m <=? w_crel s) && (w_cwritten s + m - w_kread s <=? p_cout pr)); [|discriminate].
           inversion H; subst s'; simpl; auto.
